@@ -456,9 +456,12 @@ def matrix_event(mat, w, kind):
 
 def record_build(idx, text, used, w, policy="drop", **kw):
     """Run design_matrices and return the build event (or an event with status = exception)."""
+    between = kw.pop("between", None)   # called with the built design before it is projected (a history step)
     if "extra_namespace" not in kw and getattr(w, "namespace", None):
         kw["extra_namespace"] = dict(w.namespace)
     st, dm = design.build(text, w.df, na_action=policy, **kw)
+    if st == "ok" and between is not None:
+        between(dm)
     ev = {
         "id": idx,
         "kind": "build",
